@@ -5,16 +5,20 @@ From Falcon Require Import Base.Res IL.Const IL.Expr IL.Func IL.Loc Exec.Sem Flo
 Import ListNotations.
 Local Open Scope Z_scope.
 
-(* 1. soundness of the reported constants, and 2. of Constants::eval, on the complement of the known
-      finding's class (def_assigned: every read is definitely assigned on every path from the entry), for
-      functions satisfying the CFG invariant (C15) with one width per name and well-sorted sources (c13_wf).
-      Whenever the analysis returns Ok r, for EVERY execution of the reference semantics from the entry
-      (any fuel, any initial state), before every executed location: a scalar for which a constant is
-      reported and which the function has assigned earlier in that execution holds exactly that constant;
-      an expression whose scalars the function has all assigned and for which eval answers Some v has the
-      value v. *)
+(* The analysis is the REPAIRED one: at the function entry every scalar the function writes is Top, so a
+   scalar assigned on only some paths joins to Top (the former known finding kf:not-definitely-assigned).
+   Class of the theorems: the CFG invariant (C15) and c13_wf (executable: one width per written scalar name,
+   assignment sources well sorted and of the destination's width).  No definite-assignment hypothesis. *)
+
+(* 1. soundness of the reported constants, and 2. of Constants::eval.  Whenever the analysis returns Ok r,
+      for EVERY execution of the reference semantics from the entry (any fuel, any initial state), before
+      every executed location: a scalar for which a constant is reported and which the function has assigned
+      earlier in that execution holds exactly that constant; an expression whose scalars the function has all
+      assigned and for which eval answers Some v has the value v.  (The "assigned" premise is only needed for
+      the very first visit of an entry block that lies inside a loop; everywhere else the proof gives the
+      unconditional statement.) *)
 Theorem constants_sound : forall f max r,
-  cfg_inv (f_cfg f) = true -> c13_wf f = true -> def_assigned f = true ->
+  cfg_inv (f_cfg f) = true -> c13_wf f = true ->
   constants_max max f = Ok r ->
   forall l0 st0 fuel ti asg cm s c,
     entry_loc f = Some l0 ->
@@ -23,13 +27,13 @@ Theorem constants_sound : forall f max r,
     cm_get cm s = Some (CConst c) -> key_mem (skey_of s) asg = true ->
     env_get (st_env (ti_before ti)) (skey_of s) = Some c.
 Proof.
-  intros f max r H1 H2 H3 H4 l0 st0 fuel ti asg cm s c H7 H8 H9.
-  exact (proj1 (ConstantsProofs.constants_sound f max r H1 H2 H3 H4 l0 st0 fuel ti asg cm H7 H8 H9) s c).
+  intros f max r H1 H2 H4 l0 st0 fuel ti asg cm s c H7 H8 H9.
+  exact (proj1 (ConstantsProofs.constants_sound f max r H1 H2 H4 l0 st0 fuel ti asg cm H7 H8 H9) s c).
 Qed.
 Print Assumptions constants_sound.
 
 Theorem constants_eval_sound : forall f max r,
-  cfg_inv (f_cfg f) = true -> c13_wf f = true -> def_assigned f = true ->
+  cfg_inv (f_cfg f) = true -> c13_wf f = true ->
   constants_max max f = Ok r ->
   forall l0 st0 fuel ti asg cm e v,
     entry_loc f = Some l0 ->
@@ -39,49 +43,49 @@ Theorem constants_eval_sound : forall f max r,
     (forall x, In x (scalars e) -> key_mem (skey_of x) asg = true) ->
     den (st_env (ti_before ti)) e = Ok v.
 Proof.
-  intros f max r H1 H2 H3 H4 l0 st0 fuel ti asg cm e v H7 H8 H9.
-  exact (proj2 (ConstantsProofs.constants_sound f max r H1 H2 H3 H4 l0 st0 fuel ti asg cm H7 H8 H9) e v).
+  intros f max r H1 H2 H4 l0 st0 fuel ti asg cm e v H7 H8 H9.
+  exact (proj2 (ConstantsProofs.constants_sound f max r H1 H2 H4 l0 st0 fuel ti asg cm H7 H8 H9) e v).
 Qed.
 Print Assumptions constants_eval_sound.
 
-(* the key lemma behind both: on def_assigned functions the engine's result is an EXACT solution of the
-   data-flow equations (each stored map equals, as a map, the transfer of the join of its predecessors'
-   maps), although the engine only compares with Constants::partial_cmp, for which {x:5} = {x:6} *)
+(* the key lemma behind both: the engine's result is an EXACT solution of the data-flow equations (each
+   stored map equals, as a map, the transfer of the join of its predecessors' maps), although the engine only
+   compares with Constants::partial_cmp, for which {x:5} = {x:6} *)
 Theorem constants_exact : forall f max m,
-  cfg_inv (f_cfg f) = true -> srcs_wf f = true -> def_assigned f = true ->
+  cfg_inv (f_cfg f) = true -> srcs_wf f = true ->
   constants_states max f = Ok m -> exact_solution f m = true.
 Proof. exact ConstantsProofs.constants_exact. Qed.
 Print Assumptions constants_exact.
 
-(* 3. the repaired defect, unbounded: whenever the fixed point is reached, the remap pass of constants()
-      returns a map -- no index panic and no error, whichever blocks are unreachable from the entry
-      (part of the property's completion clause; the fixed-point part of completion is open, notes/C13.md) *)
+(* 3. whenever the fixed point is reached, the remap pass of constants() returns a map -- no index panic
+      and no error, whichever blocks are unreachable from the entry *)
 Theorem constants_remap_total : forall f max m,
   cfg_inv (f_cfg f) = true -> srcs_wf f = true ->
   constants_states max f = Ok m -> exists r, remap f m m = Ok r.
 Proof. exact ConstantsProofs.constants_remap_total. Qed.
 Print Assumptions constants_remap_total.
 
-(* 4. completion: on a def_assigned function the analysis returns a result whenever the engine's step
-      budget covers the C09 bound  1 + out_degree * |locations| * (3*|scalars| + 1)  (height per location:
-      absent < Bottom < Constant < Top for each scalar); with the hard-coded budget 250000 this covers every
-      function with  out_degree * |locations| * (3*|scalars| + 1) <= 250000. *)
+(* 4. completion: the analysis returns a result whenever the engine's step budget covers the C09 bound
+      1 + out_degree * |locations| * (3*|written scalars| + 1); with the hard-coded budget 250000 this covers
+      every function with  out_degree * |locations| * (3*|written scalars| + 1) <= 250000.  It holds for EVERY
+      function with an entry, hence in particular for those in which no scalar can be read before it is
+      assigned (the class of the property's first sentence). *)
 Theorem constants_completes : forall f max,
-  cfg_inv (f_cfg f) = true -> c13_wf f = true -> def_assigned f = true ->
-  (1 + out_degree f * (length (locations f) * S (3 * length (all_scalars f))) <= S max)%nat ->
+  cfg_inv (f_cfg f) = true -> c13_wf f = true -> entry_loc f <> None ->
+  (1 + out_degree f * (length (locations f) * S (3 * length (wkeys f))) <= S max)%nat ->
   exists r, constants_max max f = Ok r.
 Proof. exact ConstantsProofs.constants_completes. Qed.
 Print Assumptions constants_completes.
 
-(* 5. and for ANY budget the only possible failure on that class is FixedPointMaxSteps: never
-      FixedPointOrdering, never a panic, never another error *)
+(* 5. and for ANY budget the only possible failure is FixedPointMaxSteps: never FixedPointOrdering, never a
+      panic, never another error *)
 Theorem constants_only_budget_error : forall f max,
-  cfg_inv (f_cfg f) = true -> c13_wf f = true -> def_assigned f = true ->
+  cfg_inv (f_cfg f) = true -> c13_wf f = true -> entry_loc f <> None ->
   (exists r, constants_max max f = Ok r) \/ constants_max max f = Err EMaxSteps.
-Proof. exact ConstantsProofs.constants_completes_partial. Qed.
+Proof. exact ConstantsProofs.constants_only_budget_error. Qed.
 Print Assumptions constants_only_budget_error.
 
-(* the known finding kf:not-definitely-assigned:  if a == 0 { b = 5 } else { nop x4 }; c = b + 1; nop
+(* the former known finding:  if a == 0 { b = 5 } else { nop x4 }; c = b + 1; nop
    scalars: a = 0, b = 1, c = 2 (32 bits) *)
 Definition sa : scalar := mks 0%N 32 None.
 Definition sb : scalar := mks 1%N 32 None.
@@ -99,40 +103,16 @@ Definition kf_f : func :=
 Definition kf_st0 : sstate :=
   mkst [((0%N, None), mkc 32 1); ((1%N, None), mkc 32 9); ((2%N, None), mkc 32 0)] (mkbmem false []).
 
-(* outside def_assigned the soundness clause is refuted: the analysis completes, reports c = 6 before the
-   final nop, and the execution through the else arm -- in which the function has assigned c -- finds 10
-   (item_ok = clause (b) of the oracle in Flow/C13Check.v) *)
-Example constants_sound_refuted :
+(* the hypotheses are satisfiable on a function that is NOT def_assigned, and the repaired analysis reports
+   b = Top, c = Top before the final nop (the unrepaired one reported c = 6, contradicted by a = 1, b = 9) *)
+Example constants_half_assigned_repaired :
   (cfg_inv (f_cfg kf_f) && c13_wf kf_f && negb (def_assigned kf_f) &&
    match constants_max 3000 kf_f with
    | Ok r => match lm_get r (LInstr 3 1) with
-             | Some cm => cmap_eqb cm [(sb, CConst (mkc 32 5)); (sc, CConst (mkc 32 6))]
+             | Some cm => cmap_eqb cm [(sb, CTop); (sc, CTop)]
              | None => false
-             end && negb (forallb (item_ok r) (with_assigned [] (sem_run 32 kf_f (LInstr 0 0) kf_st0)))
+             end && forallb (item_ok r) (with_assigned [] (sem_run 32 kf_f (LInstr 0 0) kf_st0))
    | _ => false
    end) = true.
 Proof. vm_compute. reflexivity. Qed.
-Print Assumptions constants_sound_refuted.
-
-(* the hypotheses of the theorems are satisfiable: the same shape with b initialised first *)
-Definition ok_f : func :=
-  mkfunc 4096
-    (mkcfg [mkblock 0 2 [mkinstr 0 (OAssign sa (EConst (mkc 32 0))) None; mkinstr 1 (OAssign sb (EConst (mkc 32 7))) None] [];
-            mkblock 1 1 [mkinstr 0 (OAssign sb (EConst (mkc 32 5))) None] [];
-            mkblock 2 1 [mkinstr 0 (ONop None) None] [];
-            mkblock 3 2 [mkinstr 0 (OAssign sc (EBin Add (EScalar sb) (EConst (mkc 32 1)))) None; mkinstr 1 (ONop None) None] []]
-           [mkedge 0 1 (Some kf_cond); mkedge 0 2 (Some (EBin Cmpeq kf_cond (EConst (mkc 1 0))));
-            mkedge 1 3 None; mkedge 2 3 None]
-           4 (Some 0) (Some 3)) None.
-Example constants_hyps_satisfiable :
-  (cfg_inv (f_cfg ok_f) && c13_wf ok_f && def_assigned ok_f &&
-   match constants_states 3000 ok_f with
-   | Ok m => exact_solution ok_f m &&
-             match remap ok_f m m with
-             | Ok r => match lm_get r (LInstr 3 1) with
-                       | Some cm => cmap_eqb cm [(sa, CConst (mkc 32 0)); (sb, CTop); (sc, CTop)]
-                       | None => false end
-             | _ => false end
-   | _ => false
-   end) = true.
-Proof. vm_compute. reflexivity. Qed.
+Print Assumptions constants_half_assigned_repaired.
